@@ -30,6 +30,9 @@ Lines:  send s<t> <j> <hex of the plaintext of this call>
         peer.msg <hex plaintext> / peer.close  what the peer sent
         note interleaved-flush <a> <b>         the lower transport wrote a piece of b's blob inside a's blob
         note unlocked-flush <who>              lower send_all() called by a task that does not own the TLS send lock
+Round 5 (`inject`, class Injection): chosen write() calls of the library-side SSLObject raise SSLWantReadError /
+SSLWantWriteError or return a short count (hook: SSLContext.sslobject_class); `note inject <k> <what> <task> <len>` lines;
+these cases are judged by the oracle only.
 TLS 1.3 record accounting (harness side, to know how much plaintext a blob carries): an application-data record is
 5 header bytes + plaintext + 1 type byte + 16 tag bytes.
 """
@@ -81,6 +84,102 @@ def contexts() -> tuple[ssl.SSLContext, ssl.SSLContext]:
 
 
 VIA_CLIENT = ("tlsclient", "tlsserver")
+
+
+# ------------------------------------------------------------------------------------------------
+# round 5: the TLS engine refuses application-data writes (SSL_ERROR_WANT_READ / WANT_WRITE) in the middle of the backlog
+# ------------------------------------------------------------------------------------------------
+
+class Injection:
+    """`case["inject"]` = [[k, what]…]: the k-th call of SSLObject.write() made after the handshake (all tasks together, retries
+    count) is answered  "wantw"  SSLWantWriteError, nothing consumed;  "wantr"  SSLWantReadError, nothing consumed (the peer
+    then sends a record: at once — which also wakes a reader parked on the lower transport — and again each time a SENDER task
+    comes to read the lower transport, which it only does to serve a WANT_READ; at most `MAX_KICKS` records per run);
+    "part:n"  the first n bytes are written and n is returned (the documented return value of write(); n >= 1).
+    These are the answers the documented API of ssl.SSLObject.write() has (CPython never sets SSL_MODE_ENABLE_PARTIAL_WRITE, so
+    its own objects write everything or raise; "part" exercises the contract the transport's code is written against, and is
+    drawn rarely).  Everything else is the real OpenSSL object: the hook is the documented `SSLContext.sslobject_class`."""
+
+    MAX_KICKS = 16
+
+    def __init__(self, plan: list, kick: bytes) -> None:
+        self.plan = {int(k): str(v) for k, v in plan}
+        self.kick_data = kick
+        self.n = 0
+        self.armed = False
+        self.kicks = 0
+        self.fired: list[str] = []
+        self.push = None        # set by the run: callable(bytes plaintext) -> None
+        self.note = None        # set by the run: callable(str) -> None
+
+    def kick(self) -> bool:
+        if self.push is None or self.kicks >= self.MAX_KICKS:
+            return False
+        self.kicks += 1
+        self.push(self.kick_data)
+        return True
+
+
+class InjectingSSLObject(ssl.SSLObject):
+    """the real ssl.SSLObject (created by the real SSLContext.wrap_bio through `sslobject_class`); write() consults the plan of
+    the run in progress"""
+
+    _inj: Injection | None = None
+
+    def write(self, data):  # type: ignore[override]
+        inj = InjectingSSLObject._inj
+        if inj is None or not inj.armed:
+            return super().write(data)
+        k = inj.n
+        inj.n += 1
+        what = inj.plan.get(k)
+        if what is None:
+            return super().write(data)
+        who = env.cur()
+        if what == "wantw":
+            inj.fired.append(f"{k}:wantw")
+            if inj.note:
+                inj.note(f"note inject {k} wantw {who} {len(memoryview(data).cast('B'))}")
+            raise ssl.SSLWantWriteError(ssl.SSL_ERROR_WANT_WRITE, "injected: the operation did not complete (write)")
+        if what == "wantr":
+            inj.fired.append(f"{k}:wantr")
+            if inj.note:
+                inj.note(f"note inject {k} wantr {who} {len(memoryview(data).cast('B'))}")
+            inj.kick()
+            raise ssl.SSLWantReadError(ssl.SSL_ERROR_WANT_READ, "injected: the operation did not complete (read)")
+        if what.startswith("part:"):
+            view = memoryview(data).cast("B")
+            n = max(1, int(what[5:]))
+            if n < len(view):
+                inj.fired.append(f"{k}:part")
+                if inj.note:
+                    inj.note(f"note inject {k} part {who} {n}/{len(view)}")
+                return super().write(view[:n])
+        return super().write(data)
+
+
+class injecting:
+    """context manager: the library-side SSLContext creates InjectingSSLObject instances for the duration of one run"""
+
+    def __init__(self, ctx: ssl.SSLContext, inj: Injection | None) -> None:
+        self.ctx, self.inj = ctx, inj
+
+    def __enter__(self):
+        if self.inj is not None:
+            self.ctx.sslobject_class = InjectingSSLObject
+            InjectingSSLObject._inj = self.inj
+        return self.inj
+
+    def __exit__(self, *a):
+        if self.inj is not None:
+            self.ctx.sslobject_class = ssl.SSLObject
+            InjectingSSLObject._inj = None
+
+
+def make_injection(case: dict) -> Injection | None:
+    if not case.get("inject"):
+        return None
+    return Injection(case["inject"], R.expected_chunks(case["spec"], case.get("kick", "6b")))
 
 
 class Peer:
@@ -167,6 +266,7 @@ class PipeTransport(env.MemTransport):
         self.unlocked: str | None = None
         self.send_lock: Any = None         # the logged TLS send lock, when known
         self.eof = False                   # the peer has closed its end (after its close_notify)
+        self.inj: Injection | None = None  # round 5: scripted WANT_READ / WANT_WRITE answers of the TLS engine
 
     def _deliver(self, piece: bytes) -> None:
         back = self.peer.feed(piece)
@@ -182,6 +282,8 @@ class PipeTransport(env.MemTransport):
         while not self.inbox:
             if self._closing or self.eof:
                 return b""
+            if self.inj is not None and self.inj.armed and env.cur().startswith("s") and env.cur()[1:].isdigit() and self.inj.kick():
+                continue        # a sender reads the lower transport only to serve a WANT_READ: the peer answers
             self._data_ev.clear()
             await self._data_ev.wait()
         c = self.inbox.popleft()
@@ -255,6 +357,26 @@ class _Run:
     def rd(self, line: str) -> None:
         # reader / peer lines are harness-side observations: written whatever `trace.enabled` says
         self.trace.lines.append(line)
+
+    def arm(self, inj: "Injection | None") -> None:
+        self.inj = inj
+        if inj is None:
+            return
+
+        def push(plain: bytes) -> None:
+            ct = self.peer.write(plain)
+            if ct:
+                self.rd(f"peer.msg {core.hexs(plain)}")
+                self.tr.push(ct)
+
+        inj.push, inj.note = push, self.rd
+        self.tr.inj = inj
+        inj.armed = True
+
+    def disarm(self) -> None:
+        inj = getattr(self, "inj", None)
+        if inj is not None:
+            inj.armed = False
 
     @staticmethod
     async def sleep_until(at: float) -> None:
@@ -414,6 +536,7 @@ def run_tls(case: dict) -> list[str]:
         tr.script = env.Script(case["script"])
         trace.enabled = True
         run = _Run(case, trace, tr, peer)
+        run.arm(box.get("inj"))
         rtasks: list[asyncio.Task] = []
 
         def start_readers(first: bool) -> None:
@@ -431,6 +554,7 @@ def run_tls(case: dict) -> list[str]:
             if lk.name == "tls.":
                 trace.ev(f"tls.final {lk.state()}")
         trace.enabled = False
+        run.disarm()
         tr.script = env.Script([])
         if rtasks:
             # the peer closes: every reader (parked or not) must come back with EOF
@@ -441,7 +565,10 @@ def run_tls(case: dict) -> list[str]:
         else:
             await R._quiet(tls.aclose())
 
-    res, loop = env.run(main, trace)
+    inj = make_injection(case)
+    box["inj"] = inj
+    with injecting(contexts()[0], inj):
+        res, loop = env.run(main, trace)
     return _finish(case, trace, box, res, loop)
 
 
@@ -489,6 +616,7 @@ def run_tls_server(case: dict) -> list[str]:
                         trace.ev(f"tls.final {lk.state()}")
             finally:
                 trace.enabled = False
+                run.disarm()
                 tr.script = env.Script([])
                 finished.set()
 
@@ -501,6 +629,7 @@ def run_tls_server(case: dict) -> list[str]:
                 tr.send_lock = next((lk for lk in backend.fair_locks if lk.name == "tls."), None)
                 tr.script = env.Script(case["script"])
                 trace.enabled = True
+                run.arm(box.get("inj"))
                 box["job"] = loop.create_task(job(client, lock), name="job")
                 # the senders may start while on_connection is still running (nobody reads yet)
                 await env.pause(int(case.get("oc_pause", 0)))
@@ -545,7 +674,10 @@ def run_tls_server(case: dict) -> list[str]:
         if not peer.handshaken:
             raise core.InfraError("TLS handshake did not complete: " + str(peer.error))
 
-    res, loop = env.run(main, trace)
+    inj = make_injection(case)
+    box["inj"] = inj
+    with injecting(contexts()[1], inj):
+        res, loop = env.run(main, trace)
     return _finish(case, trace, box, res, loop)
 
 
@@ -620,6 +752,10 @@ def model_input(case: dict, real: list[str]):
 
     if any(ln.startswith(("tls.cancelled", "deadlock", "peer-error")) for ln in real):
         return None
+    if case.get("inject"):
+        # a write refused by the TLS engine (WANT_READ / WANT_WRITE / partial) is outside the Lean machine (`writeAllToSsl` always
+        # empties the backlog): these cases are judged by the oracle only
+        return None
     pks = []
     done = c12.outcomes(real)
     for i, s in enumerate(case["senders"]):
@@ -688,6 +824,11 @@ def reader_window(real: list[str]) -> str | None:
 
 
 def nontrivial(case: dict, real: list[str]) -> str | None:
+    if case.get("inject"):
+        fired = sorted({ln.split()[3] for ln in real if ln.startswith("note inject ")})
+        if fired:
+            # refused while another sender's chunks were queued behind / another sender was parked on the send lock?
+            return f"{case['target']}/{case.get('lock', 'fair')}/inject-" + "+".join(fired)
     rd = ""
     if case.get("readers") or case.get("peer_msgs") or case["target"] == "tlsserver":
         rd = "/rd-" + (reader_window(real) or "idle")
